@@ -70,6 +70,12 @@ def int_lvec(l):
     return LVec(R.from_coords(l.system, out), l.system, l.momentum, coords=tuple(out))
 
 
+def f32_lvec(l):
+    """the operand with every stored coordinate rounded to float32"""
+    out = [mpf(float(numpy.float32(v))) for v in l.f64()[0]]
+    return LVec(R.from_coords(l.system, out), l.system, l.momentum, coords=tuple(out))
+
+
 def _np_vec(ls, shape, strided=False, dtype=numpy.float64):
     s0 = ls[0]
     rows = [l.f64()[0] for l in ls]
@@ -167,6 +173,49 @@ def numpy_variants(op, cases, tier):
         yield {"name": f"numpy(n,):{numpy.dtype(dt).name}-columns", "backend": "numpy", "pairing": "intcols", "build": build_int,
                "shape": (n,), "cases": icases}
     yield {"name": "numpy-strided-view", "backend": "numpy", "pairing": "paired", "build": mk((n,), True), "shape": (n,)}
+    # physical twins of the same float64 values: big-endian columns, a padded record layout (itemsize larger than the
+    # fields, first field not at offset 0), a column of a wider 2-D block taken as a non-contiguous view
+    def retype(x, how):
+        base = numpy.asarray(x).view(numpy.ndarray)
+        names = list(base.dtype.names)
+        if how == "big-endian":
+            out = numpy.zeros(base.shape, dtype=[(nm, ">f8") for nm in names])
+        elif how == "padded-offsets":
+            out = numpy.zeros(base.shape, dtype=numpy.dtype({"names": names, "formats": ["<f8"] * len(names),
+                                                              "offsets": [8 + 24 * k for k in range(len(names))],
+                                                              "itemsize": 24 * len(names) + 16}))
+        elif how == "column-of-2d":
+            wide = numpy.zeros(base.shape + (3,), dtype=base.dtype)
+            wide[..., 0] = wide[..., 2] = numpy.array(tuple(-9.75 for _ in names), dtype=base.dtype)
+            out = wide[..., 1]
+        for nm in names:
+            out[nm] = base[nm]
+        return out.view(type(x))
+    for k_, how in enumerate(("big-endian", "padded-offsets", "column-of-2d")):
+        shp = [(n,), (2, n // 2), (n,)][k_]
+
+        def build_twin(how=how, shp=shp):
+            v, a = mk(shp)()
+            v = retype(v, how)
+            for j in vecpos:
+                a[j] = retype(a[j], how) if how != "padded-offsets" else a[j]
+            return v, a
+        yield {"name": f"numpy{shp!r}:{how}".replace(" ", ""), "backend": "numpy", "pairing": "paired", "build": build_twin, "shape": shp}
+    # float32 columns: values rounded to float32 first (the object reference gets the rounded values), compared at
+    # float32 accuracy
+    try:
+        fcases = [(f32_lvec(c[0]), [f32_lvec(a) if isinstance(a, LVec) else a for a in c[1]]) for c in cases]
+    except R.NotRepresentable:
+        fcases = None
+    if fcases is not None and (op.result != "bool" or op.name in ("equal", "not_equal")):
+        def build_f32():
+            v = _np_vec([c[0] for c in fcases], (n,), dtype=numpy.float32)
+            a = list(plain)
+            for j in vecpos:
+                a[j] = _np_vec([c[1][j] for c in fcases], (n,), dtype=numpy.float32)
+            return v, a
+        yield {"name": "numpy(n,):float32-columns", "backend": "numpy", "pairing": "f32cols", "build": build_f32, "shape": (n,),
+               "cases": fcases, "tol": mpf(10) ** -4}
     gi = next((j for j, k in enumerate(op.args) if k in GRID_KINDS), None)
     if gi is not None:
         base = cases[0][1][gi]
@@ -186,6 +235,14 @@ def numpy_variants(op, cases, tier):
         yield {"name": "numpy x object", "backend": "numpy", "pairing": "other0", "build": mk((n,), other="object"), "shape": (n,)}
         yield {"name": "object x numpy", "backend": "numpy", "pairing": "self0", "build": mk((n,), selfmode="object"), "shape": (n,)}
         yield {"name": "numpy(2,n/2) x object", "backend": "numpy", "pairing": "other0", "build": mk((2, n // 2), other="object"), "shape": (2, n // 2)}
+
+
+class TwinNotApplicable(Exception):
+    pass
+
+
+def salt_mix(name):
+    return sum(map(ord, name))
 
 
 def awkward_variants(op, cases, tier, salt):
@@ -326,6 +383,31 @@ def awkward_variants(op, cases, tier, salt):
                 return v, a
             yield {"name": f"awkward:jagged x {kname}", "backend": "awkward", "pairing": "paired", "build": build_kinds,
                    "struct": S["jagged"], "route": "zip", "extra": True}
+    # physical layout twins (awk.relayout): same logical array, different layout nodes; self and the other operand get
+    # different kinds so that the two are never laid out alike
+    twin_structs = ["jagged", "nested3", "option_list", "option_leaf", "flat"]
+    kinds = list(awk.PHYSICAL)
+    if tier == "thorough":
+        picks = [("jagged", kd) for kd in kinds] + [(twin_structs[1 + (i + k) % 4], kd) for i, kd in enumerate(kinds)]
+    else:
+        picks = [(twin_structs[(k + i) % 5], kinds[(3 * k + salt_mix(op.name) + 3 * i) % len(kinds)]) for i in range(3)]
+    for (sname, kd) in picks:
+        route = routes[(k + len(sname) + len(kd)) % 3]
+        st = S[sname]
+
+        def build_twin(st=st, route=route, kd=kd):
+            v0 = mkarr(selfs, st, route, True)
+            v = awk.relayout(v0, kd)
+            if v is None:
+                raise TwinNotApplicable()
+            a = list(plain)
+            for j in vecpos:
+                a0 = mkarr([c[1][j] for c in cases], st, route, False)
+                a1 = awk.relayout(a0, kinds[(kinds.index(kd) + 3) % len(kinds)])
+                a[j] = a1 if a1 is not None else a0
+            return v, a
+        yield {"name": f"awkward:{sname}:{route}:physical={kd}", "backend": "awkward", "pairing": "paired", "build": build_twin,
+               "struct": st, "route": route, "extra": route != "with_name"}
     b, st = mk("jagged", "zip")
     yield {"name": "awkward:regular:zip", "backend": "awkward", "pairing": "paired",
            "build": _regular_builder(selfs, cases, plain, vecpos, n), "struct": [list(range(n // 2)), list(range(n // 2, n))],
@@ -416,11 +498,12 @@ def canon_awkward(op, res, variant):
     return skel, out, meta
 
 
-def compare_elem(op, got, exp, unit, gain, cond=mpf(1)):
+def compare_elem(op, got, exp, unit, gain, cond=mpf(1), tol=None):
     """-> (ok, message); cond: extra tolerance factor where the definition itself is ill-conditioned"""
     if exp[0] == "exc":
         return None, "object raised"
     e = exp[1]
+    TOL = tol if tol is not None else globals()["TOL"]
     if op.result == "bool":
         return (bool(got) == bool(e)), f"got {got} expected {e}"
     if op.result == "vec":
@@ -544,6 +627,9 @@ def run(items, tier, seed, res, prop, judge_values=True, judges=(), backends=("n
                     vunits = units if "cases" not in var else [E.unit_scale(c[0], c[1], True) for c in vcases]
                     try:
                         v, a = var["build"]()
+                    except TwinNotApplicable:
+                        res.count("twin_layout_not_applicable")
+                        continue
                     except Exception as e:
                         res.inconc(f"cannot build variant {var['name']} for {sig}: {type(e).__name__}: {e}"[:300])
                         continue
@@ -632,8 +718,8 @@ def _judge_values(op, dim, res, prop, sig, var, cases, exp, units, gain, out, ex
         if g is None:
             res.violation(f"{prop}/value-became-missing variant={_vclass(name)} op={op.name}", {"sig": sig, "variant": name, "row": ri})
             continue
-        cond = E.cond_gain(op, cases[ri][0], cases[ri][1], TOL, True) if op.name in E.ILL_CONDITIONED_AT_COLLINEAR else mpf(1)
-        ok, msg = compare_elem(op, g, exp[ri], units[ri], gain, cond)
+        cond = E.cond_gain(op, cases[ri][0], cases[ri][1], var.get("tol") or TOL, True) if op.name in E.ILL_CONDITIONED_AT_COLLINEAR else mpf(1)
+        ok, msg = compare_elem(op, g, exp[ri], units[ri], gain, cond, var.get("tol"))
         if ok is None:
             res.count("skip_element_not_comparable")
             continue
